@@ -43,7 +43,7 @@ pub const CORPUS: &[&str] = &[
     "8/8/8/K2pP2r/8/8/8/7k w - d6 0 1",          // en passant refused: rank pin (king a5, rook h5)
     "8/8/8/8/k2Pp2R/8/8/7K b - d3 0 1",          // same for Black
     "7k/1b6/8/3pP3/8/8/6K1/8 w - d6 0 1",        // en passant allowed, bishop diagonal not through e5/d5? (control case)
-    "7k/8/8/8/8/8/8/R3K2R w KQ - 0 1",
+    "6k1/8/8/8/8/8/8/R3K2R w KQ - 0 1",
     "r3k2r/8/8/8/8/8/8/4K3 b kq - 0 1",
     "4k3/8/8/8/8/8/5r2/R3K2R w KQ - 0 1",        // f1 attacked: no O-O, O-O-O fine
     "4k3/8/8/8/8/8/1r6/R3K2R w KQ - 0 1",        // b1 attacked: O-O-O still legal
@@ -75,6 +75,28 @@ pub const CORPUS: &[&str] = &[
     "rnbqkbnr/1pp1pppp/p7/3pP3/8/8/PPPP1PPP/RNBQKBNR w KQkq d6 0 3",
     "8/6k1/8/8/4p1p1/8/5P2/6K1 w - - 0 1",        // f2-f4 creates two possible capturers
     "8/8/3k4/8/2pPp3/8/8/3K4 b - d3 0 1",
+    // the only legal reply is an en-passant capture of the checking pawn (before and after the push)
+    "1R6/8/7R/k7/2p5/K7/1P6/8 w - - 0 1",
+    "1R6/8/7R/k7/1Pp5/K7/8/8 b - b3 0 1",
+    "8/1p6/k7/2P5/K7/7r/8/1r6 b - - 0 1",
+    "8/8/k7/1pP5/K7/7r/8/1r6 w - b6 0 1",
+    // pinned pawn on the seventh that can only capture its pinner on the last rank (promotion by capture along the pin)
+    "5b2/4P3/8/8/1K6/8/8/7k w - - 0 1",
+    "k6b/6P1/5K2/8/8/8/8/8 w - - 0 1",
+    "7K/8/8/1k6/8/8/4p3/5B2 b - - 0 1",
+    // en-passant capture that gives check with the capturing pawn itself
+    "8/p2pk3/8/4P3/8/8/8/4K3 b - - 0 1",
+    // stalemate / mate by pawn, knight beside the king's pawn-attack squares
+    "7R/k7/1P6/P2B4/1N6/8/8/6K1 b - - 0 1",
+    "7k/6N1/7K/8/2B5/8/8/8 b - - 0 1",
+    // g-file and b-file en passant, both colours
+    "4k3/8/8/8/5p1p/8/6P1/4K3 w - - 0 1",
+    "4k3/1p6/8/P1P5/8/8/8/4K3 b - - 0 1",
+    "4k3/6p1/8/5P1P/8/8/8/4K3 b - - 0 1",
+    // double pushes that give check, both colours
+    "8/8/8/5k2/8/8/4P3/4K3 w - - 0 1",
+    "4k3/3p4/8/8/4K3/8/8/8 b - - 0 1",
+    "8/1p6/8/8/2K5/8/8/6k1 b - - 0 1",
 ];
 
 fn place_random(p: &mut Pos, rng: &mut Rng, k: Kind, c: Col) -> bool {
@@ -220,7 +242,7 @@ fn maybe_flip(p: Pos, rng: &mut Rng) -> Pos {
 /// one move away or already in force.
 pub fn pattern(rng: &mut Rng) -> (Pos, &'static str) {
     for _ in 0..200 {
-        let which = rng.below(9);
+        let which = rng.below(12);
         let mut p = Pos::empty();
         let name: &'static str;
         match which {
@@ -417,6 +439,54 @@ pub fn pattern(rng: &mut Rng) -> (Pos, &'static str) {
                 }
                 p.stm = Col::W;
             }
+            9 => {
+                // the only legal reply to a pawn check is the en-passant capture of the checker
+                name = "ep_only_reply";
+                let t = *rng.pick(&["1R6/8/7R/k7/2p5/K7/1P6/8 w - - 0 1", "1Q6/8/7R/k7/2p5/K7/1P6/8 w - - 0 1", "1R6/8/6Q1/k7/2p5/K7/1P6/8 w - - 0 1"]);
+                p = Pos::from_fen(t).unwrap();
+                if rng.chance(1, 2) {
+                    p = p.mirror_file();
+                }
+                let q = maybe_flip(p, rng);
+                if q.strict_validity_error().is_none() {
+                    return (q, name);
+                }
+                continue;
+            }
+            10 => {
+                // a pawn on the seventh, diagonally pinned by a bishop/queen on the last rank next to it:
+                // its only moves are the four capture-promotions along the pin
+                name = "pinned_promo_capture";
+                let f = rng.range(0, 7) as i32;
+                let d = if rng.chance(1, 2) { 1 } else { -1 };
+                let k = rng.range(1, 4) as i32;
+                let (ps, ss, ks) = match (mk(f, 6), mk(f + d, 7), mk(f - d * k, 6 - k)) {
+                    (Some(a), Some(b), Some(c)) => (a, b, c),
+                    _ => continue,
+                };
+                p.sq[ps as usize] = Some((Kind::P, Col::W));
+                p.sq[ss as usize] = Some((if rng.chance(1, 2) { Kind::B } else { Kind::Q }, Col::B));
+                p.sq[ks as usize] = Some((Kind::K, Col::W));
+                place_random(&mut p, rng, Kind::K, Col::B);
+                p.stm = Col::W;
+            }
+            11 => {
+                // rejection sampling for positions with very few legal moves (status boundaries)
+                name = "few_legal_moves";
+                let mut best: Option<(usize, Pos)> = None;
+                for _ in 0..60 {
+                    let men = rng.range(3, 9) as usize;
+                    let q = random_valid(rng, men, false, false);
+                    let n = q.legal_moves().len();
+                    if best.as_ref().map_or(true, |b| n < b.0) {
+                        best = Some((n, q));
+                    }
+                    if n <= 1 {
+                        break;
+                    }
+                }
+                return (best.unwrap().1, name);
+            }
             _ => {
                 // burnable rights and a few shuffling pieces (C11 workloads)
                 name = "rights_and_shufflers";
@@ -446,7 +516,7 @@ pub fn pattern(rng: &mut Rng) -> (Pos, &'static str) {
             }
         }
         let extra = rng.below(8) as usize;
-        if which != 8 {
+        if which != 8 && which < 12 {
             fill(&mut p, rng, extra);
         }
         if !kings_apart(&p) || p.strict_validity_error().is_some() {
